@@ -58,6 +58,8 @@ SchemaFor(defs, s0, types, ty, fuel) ==
       [] ty.t = "Pair"      -> s.s = "tuple" /\ SchemaForAll(defs, s.items, types, <<ty.a, ty.b>>, fuel - 1)
       [] ty.t = "adt"       ->
             LET def == types[ty.n] IN
+            IF ListEnc(def) THEN s.s = "tuple" /\ SchemaForAll(defs, s.items, types, FieldTypes(types, ty, 1), fuel - 1)
+            ELSE
             /\ s.s = "anyof" /\ Len(s.alts) = Len(def.cs)
             /\ \A ci \in 1..Len(def.cs) :
                   /\ s.alts[ci].index = TagOf(def, ci)
